@@ -350,3 +350,29 @@ package sam
 //@   ensures[C07] @invC r.owner != nil ==> progsC(r.owner)
 //@   ensures[C07] @renamed result == nil ==> r.uid == uid
 //@   ensures[C07] @refused result != nil ==> r.uid == old(r.uid)
+
+// sam.Reader.Read (C06, C11): whatever the stream delivers, Read returns a
+// record or an error (no index panic on an empty line), and every non-empty
+// piece of input that the buffered reader hands over - including a final line
+// without a trailing newline, which ReadBytes delivers together with io.EOF -
+// reaches the record parser instead of being dropped.
+//@ trusted func ext:bufio.Reader.ReadBytes
+//@   ensures result1 == nil ==> (len(result0) >= 1 && result0[len(result0)-1] == delim)
+//@ trusted func Record.UnmarshalSAM
+//@   modifies all(r)
+
+//@ func Reader.Read
+//@   mode int
+//@   props C06, C11
+//@   decoder
+//@   requires r != nil && r.r != nil
+//@   requires r.seenRefs != nil ==> (r.h != nil && len(r.h.refs) <= 999990 && refsA(r.h) && refsB(r.h) && refsC(r.h))
+//@   modifies mapof(r.seenRefs), r.h.refs, mapof(r.h.seenRefs), arrays(*Reference), backing(r.h.refs), objects(Reference)
+//@   ghost got int
+//@   ghost parsed bool
+//@   at stmt "b, err := r.r.ReadBytes('\n')" ghost got = len(ret0)
+//@   at stmt "err = rec.UnmarshalSAM(r.h, b)" ghost parsed = true
+//@   at stmt "err = rec.UnmarshalSAM(nil, b)" ghost parsed = true
+//@   ensures[C06] @nodrop got > 0 ==> parsed
+//@ func Reference.Name
+//@   inline
